@@ -29,6 +29,83 @@ class _Normalise(ast.NodeTransformer):
             return ast.copy_location(new, node)
         return node
 
+    def visit_UnaryOp(self, node):
+        # `not a is b` -> `a is not b`, `not a in b` -> `a not in b`,
+        # `not a == b` -> `a != b`
+        self.generic_visit(node)
+        if isinstance(node.op, ast.Not) and isinstance(
+                node.operand, ast.Compare) and len(
+                    node.operand.ops) == 1 and type(
+                        node.operand.ops[0]) in _NEGATE:
+            c = node.operand
+            new = ast.Compare(left=c.left,
+                              ops=[_NEGATE[type(c.ops[0])]()],
+                              comparators=c.comparators)
+            return ast.copy_location(new, node)
+        return node
+
+    def visit_While(self, node):
+        self.generic_visit(node)
+        if isinstance(node.test, ast.Constant) and node.test.value in (
+                1, True):
+            node.test = ast.copy_location(ast.Constant(value=True),
+                                          node.test)
+        return node
+
+
+_NEGATE = {ast.Is: ast.IsNot, ast.IsNot: ast.Is, ast.In: ast.NotIn,
+           ast.NotIn: ast.In, ast.Eq: ast.NotEq, ast.NotEq: ast.Eq}
+
+
+def _terminal(stmts):
+    return bool(stmts) and isinstance(stmts[-1], (ast.Return, ast.Raise,
+                                                  ast.Continue, ast.Break))
+
+
+def _normalise_blocks(node):
+    """Statement-level part of the spelling-independent form:
+      * `x = E` immediately followed by `return x`   ->  `return E`
+      * `if c: ...; return` / `else: REST`           ->  `if c: ...; return`
+        followed by REST (no else after a block that cannot fall through)
+    Both are applied bottom-up to every block of the module."""
+    for child in ast.iter_child_nodes(node):
+        _normalise_blocks(child)
+    fields = [f for f in ('body', 'orelse', 'finalbody')
+              if isinstance(getattr(node, f, None), list) and
+              getattr(node, f) and isinstance(getattr(node, f)[0], ast.stmt)]
+    for f in fields:
+        setattr(node, f, _normalise_block(getattr(node, f), node))
+
+
+def _normalise_block(stmts, owner):
+    out = []
+    declared = set()
+    for s in stmts:
+        if isinstance(s, (ast.Global, ast.Nonlocal)):
+            declared |= set(s.names)
+    i = 0
+    while i < len(stmts):
+        s = stmts[i]
+        nxt = stmts[i + 1] if i + 1 < len(stmts) else None
+        if isinstance(s, ast.Assign) and len(s.targets) == 1 and isinstance(
+                s.targets[0], ast.Name) and isinstance(nxt, ast.Return) and \
+                isinstance(nxt.value, ast.Name) and \
+                nxt.value.id == s.targets[0].id and \
+                s.targets[0].id not in declared:
+            out.append(ast.copy_location(ast.Return(value=s.value), s))
+            i += 2
+            continue
+        if isinstance(s, ast.If) and s.orelse and _terminal(s.body):
+            rest = s.orelse
+            s.orelse = []
+            out.append(s)
+            out.extend(rest)
+            i += 1
+            continue
+        out.append(s)
+        i += 1
+    return out
+
 
 class ModuleInfo:
     def __init__(self, name, path, relpath, source):
@@ -37,6 +114,7 @@ class ModuleInfo:
         self.relpath = relpath
         self.source = source
         self.tree = _Normalise().visit(ast.parse(source, filename=path))
+        _normalise_blocks(self.tree)
         self.is_package = os.path.basename(path) == '__init__.py'
         self.imports = {}      # local name -> dotted qualified name
         self.functions = {}    # name -> FunctionInfo
